@@ -98,6 +98,8 @@ class Check:
             opts['warning_level'] = rng.choice(['0', '2', '3'])
         if rng.random() < 0.3:
             opts['b_ndebug'] = rng.choice(['true', 'if-release'])
+        if rng.random() < 0.5:
+            opts['c_args'] = rng.choice(['-DC06_LEVEL=3', '-DC06_LEVEL=2 -DC06_EXTRA'])      # flags the compiler checks depend on
         nvar = 4 if tier == 'quick' else 6
         variants = []
         hist_pool = ['fresh', 'fresh', 'reconfigure', 'roundtrip', 'wipe']
@@ -157,6 +159,8 @@ class Check:
                        "ccdata.set('SIZEOF_INT', cc.sizeof('int'))\n"
                        "ccdata.set10('COMPILES', cc.compiles('int main(void) { return 0; }', name: 'trivial'))\n"
                        "ccdata.set('SUPPORTED', ' '.join(supp))\n"
+                       "ccdata.set('LEVEL_SEEN', cc.get_define('C06_LEVEL'))\n"
+                       "ccdata.set10('LEVEL_GE2', cc.compiles('#if !defined(C06_LEVEL) || C06_LEVEL < 2\\n#error low\\n#endif\\nint x;', name: 'level'))\n"
                        "configure_file(output: 'c06_cc.h', configuration: ccdata)\n")
             cfg_outputs.append('c06_cc.h')
         for mode in ex.get('cfg_modes', []):
@@ -388,8 +392,13 @@ class Check:
             elif h == 'wipe':
                 steps = [['setup', bd, sd] + dargs, ['setup', '--wipe', bd, sd]]
             else:
+                # the directory is first configured with other values and then brought to the ones under test
                 other = ['-Dwarning_level=1' if sc.get('opts', {}).get('warning_level', '1') != '1' else '-Dwarning_level=2']
                 orig = [f"-Dwarning_level={sc.get('opts', {}).get('warning_level', '1')}"]
+                if 'c_args' in sc.get('opts', {}):
+                    # (only when the baseline names c_args itself: otherwise they come from CFLAGS in the environment)
+                    other.append('-Dc_args=-DC06_LEVEL=1')
+                    orig.append(f"-Dc_args={sc['opts']['c_args']}")
                 steps = [['setup', bd, sd] + dargs + other, ['configure', bd] + orig, ['setup', '--reconfigure', bd, sd]]
             ok_ = True
             for si, args in enumerate(steps):
